@@ -168,6 +168,44 @@ def run(repo, res):
                      'with resolve_name' % nrel)
     res.count('relative_name_sequences', nrel, floor=300)
 
+    # ---- R6 dotted-name helpers (util.split_pkg / join_pkg), interpreted over every level 0..4 ------------------
+    it3 = Interp(repo, facts)
+    it3.reset_path([])
+    nsp = 0
+    badsp = []
+    try:
+        for level in range(0, 5):
+            for rest in ('', 'a', 'a.b', 'a.b.c'):
+                pkg = '.' * level + rest
+                if not pkg:
+                    continue
+                it3.steps = 0
+                got = it3.call(it3.lookup_global('supp/util.py', 'split_pkg'), [pkg], {})
+                if rest == '':
+                    want = (pkg, '')
+                elif '.' in rest:
+                    want = ('.' * level + rest.rsplit('.', 1)[0], rest.rsplit('.', 1)[1])
+                else:
+                    want = ('.' * level, rest) if level else ('', rest)
+                nsp += 1
+                if tuple(got) != want:
+                    badsp.append((pkg, tuple(got), want))
+                    continue
+                if want[1] and want[0]:
+                    back = it3.call(it3.lookup_global('supp/util.py', 'join_pkg'), [want[0], want[1]], {})
+                    nsp += 1
+                    if back != pkg:
+                        badsp.append(('join_pkg%r' % (want,), back, pkg))
+    except Uninterpretable as e:
+        raise AnalysisError('split_pkg/join_pkg outside the interpretable subset: %s' % e)
+    res.obligations += max(nsp - 1, 0)
+    res.discharged += max(nsp - 1, 0) - (1 if badsp else 0)
+    res.check('C07-R6', 'split_pkg / join_pkg keep the relative level', not badsp, 'supp/util.py', 0,
+              'split_pkg(%r) returns %r, expected %r: the number of leading dots (the relative level) or the last component is '
+              'lost, so `from ...pkg.mo|` lists the children of the wrong package' % (badsp[0] if badsp else ('', '', '')),
+              sample='%d split/join results over levels 0..4 keep the level and the last component' % nsp)
+    res.count('dotted_name_cases', nsp, floor=25)
+
     # ---- R3 sibling agreement ------------------------------------------------------------------------
     gm = repo.method(PROJECT, 'Project', 'get_module')
     lp = repo.method(PROJECT, 'Project', 'list_packages')
